@@ -139,6 +139,19 @@ class C10(Property):
                     parts.append(rest[:j])
                     rest = rest[j:]
                 cases.append(Case("framesched " + " ".join("c" + hexs(p) for p in parts if p), tags=("chunked-" + enc,)))
+                # the same pieces with transient `Interrupted` results in between (always in front of single bytes: the look-ahead
+                # byte of an UTF-16LE line feed is fetched on its own): the text must still read the same in every encoding (seed C10-j)
+                if rng.random() < 0.5:
+                    toks = []
+                    for q in parts:
+                        if not q:
+                            continue
+                        if len(q) <= 2 or rng.random() < 0.3:
+                            toks.append("i")
+                        toks.append("c" + hexs(q))
+                    cases.append(Case("framesched " + " ".join(toks), tags=("chunked-interrupted-" + enc,)))
+                if len(data) <= 300 and rng.random() < 0.3:
+                    cases.append(Case("framesched " + " ".join("i c%02x" % b for b in data), tags=("interrupted-bytewise-" + enc,)))
 
         # scalar values as single-character content
         if quick:
